@@ -4,6 +4,8 @@ import (
 	"encoding/json"
 	"os"
 
+	"verif/harness/c13"
+	"verif/harness/c14"
 	"verif/harness/c15"
 	"verif/harness/core"
 )
@@ -63,6 +65,29 @@ func runC15(c *core.Check) {
 		c.Extra["constants_pairs"] = two
 		streamTLC(c, core.TLCRun{Module: "MC_C15", Parts: 4, Consts: two, Timeout: minutes(40), KeepVars: []string{"e", "dmg"}},
 			func(st core.State) { c15.Handle(c, st) })
+	}
+	// every short byte-class string of the JSON recogniser (MC_C13) and of the lexer position machine
+	// (MC_C14) through the entry points of its syntax: totality and well-formed diagnostics on inputs
+	// that are not near any valid program
+	shortJ, shortN := "4", "3"
+	if c.Tier == "thorough" {
+		shortJ, shortN = "5", "4"
+	}
+	{
+		r := core.TLCRun{Module: "MC_C13", Consts: map[string]string{"MaxN": shortJ}, Timeout: minutes(30), KeepVars: []string{"s"}}
+		r.ConstSubst = map[string]string{"Alphabet": "Full"}
+		streamTLC(c, r, func(st core.State) {
+			src := c13.SourceOf(st)
+			c.Count("vectors_replayed", 1)
+			c15.CheckInput(c, src, c15.JSONEntries(), map[string]any{"state": st.Raw, "source": string(src), "kind": "json"})
+		})
+		r2 := core.TLCRun{Module: "MC_C14", Consts: map[string]string{"MaxN": shortN, "StartKind": "\"initial\""}, Timeout: minutes(30), KeepVars: []string{"s"}}
+		r2.ConstSubst = map[string]string{"Alphabet": "Core"}
+		streamTLC(c, r2, func(st core.State) {
+			src := c14.SourceOf(st)
+			c.Count("vectors_replayed", 1)
+			c15.CheckInput(c, src, c15.NativeEntries(), map[string]any{"state": st.Raw, "source": string(src), "kind": "native"})
+		})
 	}
 	c15.FinishPeekerRecording(c)
 	// the same protocol on every parse the repository's own tests perform (their syntax-error tables
